@@ -208,6 +208,27 @@ def kernels(opts):
             continue
         ks.append(mk(n, c["shape"], c["args"], c["body"], c["exact"], c["pre"], c["r"], c["o"], c["Dres"], views=views,
                      desc=c["desc"], splits=c.get("splits"), tags=c.get("tags")))
+    # unsigned narrowest types (always run): the result of unary minus / subtraction is signed and one digit is never lost
+    for (D, NT, at) in ((8, "unsigned", "u32"), (16, "std::uint16_t", "u32"), (31, "unsigned", "u32"), (32, "unsigned", "u32"), (32, "std::uint8_t", "u32")):
+        for (r, o) in (("nearest", "thr"), ("native", "sat")):
+            T = "cnl::static_integer<%d, %s, %s, %s>" % (D, RT[r], OT[o], NT)
+
+            def upre(D):
+                return lambda env: X.And(*[X.And(env.a[k] >= 0, env.a[k] <= (1 << D) - 1) for k in env.a])
+
+            def uclaims(f):
+                def claims(env, path):
+                    if path.kind == "UB":
+                        return []
+                    return [("exact-or-signalled", outcome_claim(env, path, [("RET", True, f(env))]))]
+                return claims
+            ks.append(Kernel("K%d" % len(ks), [("a", at)], "i64", "    auto r = -verif::mk<%s>(a);\n    return static_cast<std::int64_t>(cnl::unwrap(r));" % T,
+                             mode="bv", W=80, pre=upre(D), claims=uclaims(lambda env: -env.a["a"]),
+                             desc="-static_integer<%d,%s> [%s,%s]" % (D, NT, r, o), tags={"shape": "si_neg_unsigned", "r": r, "o": o}))
+            ks.append(Kernel("K%d" % len(ks), [("a", at), ("b", at)], "i64",
+                             "    auto r = verif::mk<%s>(a) - verif::mk<%s>(b);\n    return static_cast<std::int64_t>(cnl::unwrap(r));" % (T, T),
+                             mode="bv", W=80, pre=upre(D), claims=uclaims(lambda env: env.a["a"] - env.a["b"]),
+                             desc="static_integer<%d,%s> - same [%s,%s]" % (D, NT, r, o), tags={"shape": "si_sub_unsigned", "r": r, "o": o}))
     ks.append(mk_wide_mul("K%d" % len(ks), "nearest", "sat"))
     if tier != "quick":
         ks.append(mk_wide_mul("K%d" % len(ks), "native", "thr"))
